@@ -72,7 +72,7 @@ def strong_records(ctx, n_q, n_t):
         biggest = max([C.qdepth(t) for t in trees] + [0])
         nv = max([len(x["vars"]) for x in r["left"] + r["right"]] + [0])
         why = V.add_params(ctx, r, len(usable), ["left", "right"], nvars=max(nv, biggest), size=max([V.tree_size(t) for t in trees] + [1]),
-                           budget=5000000 if ctx.quick() else 15000000)
+                           budget=5000000 if ctx.quick() else 8000000)
         if why is None:
             r["pp"].update({"lo": 0, "hi": 1, "ext": False, "nbs": 1})
             usable.append(r)
@@ -83,7 +83,7 @@ def strong_records(ctx, n_q, n_t):
 
 def run_C03(ctx):
     V.build()
-    cases, usable, skipped, panics = strong_records(ctx, 180, 120)
+    cases, usable, skipped, panics = strong_records(ctx, 180, 60)
     verdicts = V.tlc_validate(ctx, "TraceSem", usable, {"VERIF_HTCAP": 6})
     stats, violations = V.collect(verdicts, usable, "C03")
     for v in violations:
